@@ -977,6 +977,17 @@ func (r *Run) switchStmt(s *ast.SwitchStmt, env *Env) ctl {
 	if s.Tag != nil {
 		tag = r.eval(s.Tag, e2)
 	}
+	// register every constant label of a switch over a symbolic value first, so
+	// that the value decision knows all its arms even though evaluation stops at the first hit
+	if s.Tag != nil && !isConcrete(tag) {
+		for _, st := range s.Body.List {
+			for _, ce := range st.(*ast.CaseClause).List {
+				if tv, ok := r.info().Types[ce]; ok && tv.Value != nil {
+					r.registerValue(tag, constVal(tv, ce), labelOf(ce))
+				}
+			}
+		}
+	}
 	var def *ast.CaseClause
 	run := func(cc *ast.CaseClause) ctl {
 		c := r.block(cc.Body, newEnv(e2))
@@ -1110,6 +1121,35 @@ func (r *Run) cond(e ast.Expr, env *Env) bool {
 		return r.decideBool(b.Key, true, e.Pos())
 	}
 	return r.decideBool(v.key(), true, e.Pos())
+}
+
+// registerValue adds a constant to the domain of a symbolic value without deciding.
+func (r *Run) registerValue(a, b Val, label string) {
+	repr := ""
+	switch bv := b.(type) {
+	case VStr:
+		if c, ok := bv.isConst(); ok && c != "" {
+			repr = strconv.Quote(c)
+		}
+	case VInt:
+		repr = bv.Label
+		if repr == "" {
+			repr = label
+		}
+		if repr == "" {
+			repr = strconv.FormatInt(bv.N, 10)
+		}
+	}
+	if repr == "" {
+		return
+	}
+	ek := eraseIters(a.key())
+	for _, d := range r.W.domains[ek] {
+		if d == repr {
+			return
+		}
+	}
+	r.W.domains[ek] = append(r.W.domains[ek], repr)
 }
 
 func (r *Run) equal(a, b Val, pos token.Pos, label string) bool {
